@@ -411,6 +411,38 @@ pub fn gen(prop: &str, tier: &str, seed: u64) -> Out {
                 both(&mut o, format!("bobj {} {}", pre, if kvs.is_empty() { "[]".to_string() } else { kvs.join(";") }));
             }
         }
+        "C04" | "C12" | "C14" => {
+            for _ in 0..scale(tier, 700, 20000) {
+                let a = gen_value(&mut r, &c, 0);
+                let b = derive(&mut r, &c, &a);
+                let cc = if r.chance(1, 2) { derive(&mut r, &c, &b) } else { derive(&mut r, &c, &a) };
+                o.doc_stats(&a);
+                let (ha, hb, hc) = (hex(&a.to_vec()), hex(&b.to_vec()), hex(&cc.to_vec()));
+                let mut both = |o: &mut Out, l: String| { o.push(format!("spec:{}", l)); o.push(l); };
+                match prop {
+                    "C04" => {
+                        both(&mut o, format!("cmp {} {}", ha, hb));
+                        both(&mut o, format!("cmp {} {}", hb, hc));
+                        both(&mut o, format!("cmp {} {}", ha, ha));
+                        o.push(format!("cmplaws {} {} {}", ha, hb, hc));
+                    }
+                    "C12" => {
+                        both(&mut o, format!("contains {} {}", ha, hb));
+                        both(&mut o, format!("contains {} {}", hb, ha));
+                        both(&mut o, format!("contains {} {}", ha, hc));
+                        both(&mut o, format!("contains {} {}", hc, hb));
+                        o.push(format!("containslaws {} {} {}", ha, hb, hc));
+                    }
+                    _ => {
+                        let pre = gen_prefix(&mut r, &c);
+                        o.push(format!("cmpkey {} {}", pre, ha));
+                        o.push(format!("keyorder {} {}", ha, hb));
+                        o.push(format!("keyorder {} {}", hb, hc));
+                        o.push(format!("keyorder {} {}", ha, ha));
+                    }
+                }
+            }
+        }
         "C17" => {
             for _ in 0..scale(tier, 1200, 40000) {
                 let v = gen_value(&mut r, &c, 0);
